@@ -426,6 +426,27 @@ func runCase(ops []string, forced []string, em *emitter) {
 				em.line("K txn-" + dir + "-" + res)
 				return fmt.Sprintf("%s:%d", res, steps)
 			})
+		case "stress":
+			kind, _ := proto.KV(w, "kind")
+			msS, _ := proto.KV(w, "ms")
+			wkS, _ := proto.KV(w, "workers")
+			ms, err1 := strconv.Atoi(msS)
+			wk, err2 := strconv.Atoi(wkS)
+			if (kind != "metrics" && kind != "queue" && kind != "all") || err1 != nil || err2 != nil || ms < 1 || ms > 5000 || wk < 1 || wk > 16 {
+				break
+			}
+			if !loaded {
+				ans = "not-loaded"
+				break
+			}
+			if forced[i] != "" {
+				break
+			}
+			ans = guarded(func() string {
+				eng.stress(kind, ms, wk)
+				em.line("K stress-" + kind)
+				return "done"
+			})
 		case "rtxn":
 			dir, _ := proto.KV(w, "dir")
 			if dir != "req" && dir != "res" {
@@ -461,7 +482,7 @@ func runCase(ops []string, forced []string, em *emitter) {
 		if forced[i] != "" {
 			ans = forced[i]
 			em.line("K forced-" + strings.SplitN(ans, ":", 3)[0])
-			if w[0] == "txn" || w[0] == "rtxn" {
+			if w[0] == "txn" || w[0] == "rtxn" || w[0] == "stress" {
 				nontriv = true
 			}
 		}
@@ -474,6 +495,9 @@ func runCase(ops []string, forced []string, em *emitter) {
 
 func workerMain() {
 	zerolog.SetGlobalLevel(zerolog.Disabled)
+	if os.Getenv("LUNAR_SPOE_PROCESSING_TIMEOUT_SEC") == "" {
+		os.Setenv("LUNAR_SPOE_PROCESSING_TIMEOUT_SEC", "60") // the Queue processor insists on a timeout above its TTL
+	}
 	maxStack := 8 << 20
 	if v := os.Getenv("VERIF_MAXSTACK_MB"); v != "" {
 		if n, err := strconv.Atoi(v); err == nil && n > 0 {
